@@ -297,6 +297,8 @@ def conc_program(P, argsets, mode, seed):
     res = Resource.thread if mode == "threads" else Resource.async_thread
     state = {"waiting": 0, "lock": threading.Lock()}
     gate = threading.Event()
+    over = threading.Event()          # the gathered awaits have all returned: node functions still running are not observed
+    loop_served = {"n": 0, "ticks": 0}
     barrier = threading.Barrier(T) if mode == "threads" else None
     delays = [rng.random() * 0.004 for _ in range(64)]
 
@@ -312,6 +314,16 @@ def conc_program(P, argsets, mode, seed):
             if not gate.wait(3.0):
                 with state["lock"]:
                     state["timeouts"] = state.get("timeouts", 0) + 1
+            # ... and at every later moment too: a node function only goes on once the sibling coroutine has had two more
+            # turns (a scheduler that blocks the loop while this node runs - on an error path, say - keeps it here)
+            target = loop_served["ticks"] + 2
+            deadline = time.monotonic() + 3.0
+            while loop_served["ticks"] < target and not over.is_set():
+                if time.monotonic() > deadline:
+                    with state["lock"]:
+                        state["timeouts"] = state.get("timeouts", 0) + 1
+                    break
+                time.sleep(0.001)
         time.sleep(delays[threading.get_ident() % 64])
     pr.PRE_HOOK = pre
     rows = []
@@ -344,7 +356,6 @@ def conc_program(P, argsets, mode, seed):
                 rec.owner[id(f["results"])] = (threading.get_ident(), f["results"])
             orig(event, **f)
     outs = [None] * T
-    loop_served = {"n": 0}
     _verif.sink = Sink()
     try:
         if mode == "threads":
@@ -361,13 +372,13 @@ def conc_program(P, argsets, mode, seed):
         else:
             async def probe():
                 # a sibling coroutine: it must keep being served while async-thread nodes are running
-                for _ in range(3000):
+                while True:
                     await asyncio.sleep(0.001)
+                    loop_served["ticks"] += 1
                     if state["waiting"] > 0:
                         loop_served["n"] += 1
                         if loop_served["n"] >= 3:
                             gate.set()
-                            return
 
             async def one(t):
                 try:
@@ -378,6 +389,7 @@ def conc_program(P, argsets, mode, seed):
             async def main():
                 pt = asyncio.ensure_future(probe())
                 r = await asyncio.gather(*[one(t) for t in range(T)])
+                over.set()
                 gate.set()
                 pt.cancel()
                 return r
@@ -385,6 +397,7 @@ def conc_program(P, argsets, mode, seed):
     finally:
         _verif.sink = None
         pr.PRE_HOOK = None
+        over.set()
         gate.set()
     inv = {}
     for path, iid in flat:
@@ -424,6 +437,73 @@ def conc_program(P, argsets, mode, seed):
         # blocked = a node function sat at the gate for 3 s without the sibling coroutine getting its three turns
         rows[0]["loop"] = 2 if state.get("timeouts", 0) else (1 if loop_served["n"] >= 3 else 0)
     return rows
+
+
+def error_path_scenarios():
+    """C17 on the error paths: while a node of a failed or cancelled await is still running, the loop keeps serving the other
+    coroutines.  Each scenario has an async-thread node that can only go on once a sibling coroutine has had a few more turns
+    (it gives up after 3 s); returns {scenario: True when the node had to give up (the loop was blocked)}."""
+    import asyncio
+    from tawazi import Resource, dag, xn
+
+    out = {}
+
+    def scenario(kind):
+        st = {"ticks": 0, "started": threading.Event(), "gave_up": None, "done": threading.Event()}
+
+        def hold(x):
+            st["started"].set()
+            target, deadline = st["ticks"] + 5, time.monotonic() + 3.0
+            while st["ticks"] < target and time.monotonic() < deadline:
+                time.sleep(0.001)
+            st["gave_up"] = st["ticks"] < target
+            st["done"].set()
+            return x
+
+        def boom(x):
+            st["started"].wait(3.0)
+            if x < 0:
+                raise ValueError("boom")
+            return x
+        hold_x = xn(hold, resource=Resource.async_thread)
+        boom_x = xn(boom, resource=Resource.async_thread)
+
+        def pipe(x):
+            return hold_x(x), boom_x(x)
+        d = dag(pipe, max_concurrency=2, is_async=True)
+
+        async def ticker():
+            while True:
+                await asyncio.sleep(0.001)
+                st["ticks"] += 1
+
+        async def main():
+            t = asyncio.ensure_future(ticker())
+            try:
+                if kind == "fail":
+                    await asyncio.gather(d(-1), return_exceptions=True)
+                elif kind == "fail-gathered":
+                    await asyncio.gather(d(-1), d(1), return_exceptions=True)
+                else:
+                    try:
+                        await asyncio.wait_for(d(1), 0.05)
+                    except (asyncio.TimeoutError, BaseException):  # noqa: BLE001
+                        pass
+                # the node of the failed / cancelled await may still be running: keep the loop alive until it is through
+                for _ in range(4000):
+                    if st["done"].is_set():
+                        break
+                    await asyncio.sleep(0.001)
+            finally:
+                t.cancel()
+        try:
+            asyncio.run(main())
+        except BaseException:  # noqa: BLE001
+            pass
+        return bool(st["gave_up"])
+    for kind in ("fail", "fail-gathered", "cancel"):
+        out[kind] = scenario(kind)
+    return out
 
 
 def _conc_work(args):
@@ -470,6 +550,15 @@ def run_conc(tier, seed):
                 row["p"] = idx + 1
                 obs.append(row)
     stripped = [pg.strip(P) for P in progs]
+    # the loop on the error paths (a failed / a cancelled await with a node still running): one observation per scenario,
+    # carried by a one-call-site program so that DfCheck's clause C17.loop-blocked decides it like the others
+    dummy = {"params": [], "sites": [{"kind": "call", "fn": "mix", "args": [pg.r_const(101)], "kw": [], "active": pg.r_none(), "unpack": 0, "sub": 0, "setup": False}],
+             "ret": {"shape": "single", "refs": [pg.r_site(1)], "keys": []}, "subs": []}
+    stripped.append(dummy)
+    scen = error_path_scenarios()
+    for name, blocked in scen.items():
+        obs.append({"p": len(stripped), "given": [], "raised": False, "errclass": "", "val": pg.encode((101,)), "exec": [[1]], "dup": False, "async": True,
+                    "built": True, "twice": False, "constret": False, "conc": 2, "loop": 2 if blocked else 1, "pre": [], "scenario": "error-path:" + name})
     path = os.path.join(common.CACHE, f"e5-conc-{os.getpid()}.json")
     keys = ("given", "raised", "errclass", "val", "exec", "dup", "async", "built", "twice", "constret", "conc", "loop", "pre")
     with open(path, "w") as f:
@@ -484,7 +573,7 @@ def run_conc(tier, seed):
     for m in mm:
         row = obs[m["o"] - 1]
         for c in m["c"]:
-            viols.append({"clause": c, "prog": stripped[row["p"] - 1], "row": {k: row[k] for k in keys}, "expected": m.get("expval")})
+            viols.append({"clause": c, "prog": stripped[row["p"] - 1], "row": dict({k: row[k] for k in keys}, scenario=row.get("scenario", "")), "expected": m.get("expval")})
     return {"programs": nprog, "observations": len(obs), "harness_errors": herr[:3], "harness_error_count": len(herr),
             "counts": cc[0] if cc else {}, "states": r.get("distinct", 0), "transitions": r.get("states", 0),
             "tlc_error": None if tlc.tlc_ok(r) and cc else r["out"][-1200:], "violations": viols,
@@ -533,7 +622,7 @@ def report(prop, res):
     for v in c["violations"]:
         if v["clause"].split(".")[0] == prop:
             viols.append({"sig": {"clause": v["clause"]},
-                          "what": f'{v["clause"]}: returned {json.dumps(v["row"]["val"])[:160]} raised={v["row"]["raised"]} {v["row"]["errclass"]} expected {json.dumps(v["expected"])[:160]}',
+                          "what": f'{v["clause"]} {v["row"].get("scenario", "")}: returned {json.dumps(v["row"]["val"])[:160]} raised={v["row"]["raised"]} {v["row"]["errclass"]} expected {json.dumps(v["expected"])[:160]}',
                           "replay": {"engine": "E5", "property": prop, "kind": "conc", "clause": v["clause"], "prog": v["prog"], "row": v["row"]}})
     if b["tlc_error"]:
         mach.append("TLC failed on the build traces: " + b["tlc_error"][-400:])
@@ -555,7 +644,9 @@ def report(prop, res):
     else:
         nontriv = c["counts"].get("gathered", 0)
         rule = ("2-4 awaits of one AsyncDAG (all nodes async-thread) gathered in one loop with different arguments, plus a sibling coroutine that must be served "
-                "while nodes are running; each result compared with Eval. Non-trivial: gathered awaits inside the equivalence. (Sync/async equivalence of "
+                "while nodes are running - at the start and whenever a node function is entered; three error-path scenarios (a failed await, a failed await gathered with a "
+                "healthy one, a cancelled await, each with a node still running that needs the loop); each result compared with Eval. Non-trivial: gathered awaits "
+                "inside the equivalence. (Sync/async equivalence of "
                 "values, executed sets and setup results is checked by engines E2 and E4.)")
     if nontriv < 2:
         mach.append(f"vacuous: {nontriv} non-trivial cases for {prop}")
@@ -586,6 +677,10 @@ def replay(payload, log=common.say):
         hit = any(x["c"].startswith("C16") for x in v.get(1, {"viol": []})["viol"])
         for x in v.get(1, {"viol": []})["viol"]:
             log(f'  event {x["i"]}: {x["c"]}')
+    elif payload["row"].get("scenario", "").startswith("error-path:"):
+        scen = error_path_scenarios()
+        log(f"loop blocked on the error paths: {scen}")
+        hit = scen.get(payload["row"]["scenario"].split(":", 1)[1], False)
     else:
         import prog_gen as pg
         P = payload["prog"]
